@@ -245,6 +245,55 @@ var siblingFamilies = []struct {
 		[]string{"aabb", "ab aaab", "AABB ab", "b", "aaa"}, []string{"${x}${y}", "${y}-${x}", "$1", "${x}", "y:${y}"}},
 }
 
+// genC12LongHistory: hundreds to thousands of cheap calls on one or two Regexps drawn from a pool of a
+// dozen distinct calls -- what only goes wrong after many calls (a counter that wraps or saturates, a
+// table rebuilt every N calls, a free list that grows) gets its N.
+func genC12LongHistory(seed uint64, r *rng, tier string) *Scenario {
+	sc := &Scenario{Prop: "C12", Seed: seed, SchedSeed: mix64(seed, 12), OpStepCap: scriptOpCap, Mode: "long-history", PeriodNs: int64(time.Millisecond)}
+	cfg := vsim.Config{Policy: vsim.Fair, Quantum: 100 + r.i64(900), MaxSteps: 2_000_000_000, PoolMode: []int{vsim.PoolLIFO, vsim.PoolRandom}[r.n(2)], MissProb: uint32(r.n(100)), DropProb: uint32(r.n(50))}
+	var pats []*pat
+	for tries := 0; len(sc.Res) < 1+r.n(2) && tries < 10; tries++ {
+		s, pp := randSpec(r, true)
+		s.HasLimit, s.Limit = false, 0
+		if v := pristine(s, &Op{Kind: OpGroupInfo}, scriptOpCap); len(v.res) > 8 && v.res[:8] == "COMPILE:" {
+			continue
+		}
+		sc.Res = append(sc.Res, s)
+		pats = append(pats, pp)
+	}
+	if len(sc.Res) == 0 {
+		return sc
+	}
+	var pool []Op
+	for k := 0; k < 40 && len(pool) < 12; k++ {
+		re := r.n(len(sc.Res))
+		op := genOp(r, re, pats[re], false)
+		if v := pristine(sc.Res[re], &op, scriptOpCap); v.capped || v.steps > 4000 {
+			continue
+		}
+		pool = append(pool, op)
+	}
+	if len(pool) == 0 {
+		return sc
+	}
+	n := 300 + r.n(900)
+	if tier == "thorough" {
+		n = 300 + r.n(4000)
+	}
+	if r.chance(1, 3) {
+		n = []int{255, 256, 257, 511, 513, 1023, 1025}[r.n(7)] + r.n(3)
+	}
+	cl := Client{Cost: int64(200 + r.n(300))}
+	for ; n > 0; n-- {
+		cl.Ops = append(cl.Ops, pool[r.n(len(pool))])
+	}
+	sc.Clients = []Client{cl}
+	cfg.Alphabet = alphabetOf(sc)
+	sc.Cfg = cfg
+	nameOps(sc)
+	return sc
+}
+
 // genC12Siblings: the same calls, with the same inputs and replacement strings, on several Regexps of one
 // sibling family, and calls with inputs of equal length and equal first rune on one Regexp: whatever is
 // remembered across calls must be keyed by everything the result depends on.
@@ -376,6 +425,9 @@ func genC12(seed uint64, tier string) *Scenario {
 	}
 	if r.chance(1, 10) {
 		return genC12Siblings(seed, r)
+	}
+	if r.chance(1, 30) {
+		return genC12LongHistory(seed, r, tier)
 	}
 	sc := &Scenario{Prop: "C12", Seed: seed, SchedSeed: mix64(seed, 12), OpStepCap: scriptOpCap}
 	p := int64(time.Millisecond)
